@@ -50,7 +50,22 @@ def unit_valued(fn, e):
         return all(unit_valued(fn, x) for x in e.a)
     if e.k == "call" and e.a.name == "signum":
         return False
+    if e.k == "arg" and _depth[0] < 2 and fn.vis != "pub" and fn.kind != "Closure":
+        # a parameter of a private helper: unit-valued if every caller passes a unit-valued expression
+        prog = fn.prog
+        sites_ = [(h, c) for h in prog.fns.values() if h.file == fn.file and h is not fn
+                  for c in h.calls if (c.resolved or c.defn) == fn.defn or any(x is fn for x in prog.callees(c))]
+        if not sites_:
+            return False
+        _depth[0] += 1
+        try:
+            return all(len(c.args) >= e.a and unit_valued(h, resolver(h).operand(c.args[e.a - 1])) for h, c in sites_)
+        finally:
+            _depth[0] -= 1
     return False
+
+
+_depth = [0]
 
 
 def is_len_like(e):
@@ -178,7 +193,113 @@ def a_sites(led, rid, ctx):
     n = n_auto = n_safe = 0
     import itertools
     # the front ends hand 64-bit literals of the input to the library: narrowing there is a site too
-    for key, kind, f, line, d in itertools.chain(sites(lib), sites(ctx.bin)):
+    all_sites = list(itertools.chain(sites(lib), sites(ctx.bin)))
+    present = {key for key, kind, f, line, d in all_sites}
+
+    def module_of(defpath):
+        segs = defpath.lstrip("<").split("::")
+        out = []
+        for sg in segs:
+            if sg and (sg[0].islower() or sg[0] == "_") and "<" not in sg and " " not in sg:
+                out.append(sg)
+            else:
+                break
+        return "::".join(out)
+
+    def shape(e, depth=0):
+        """operator skeleton of an operand: constants and operators down to depth 2, every other leaf `_`"""
+        e = peel(e, calls=None, casts=False) if e is not None else None
+        if e is None:
+            return "_"
+        if e.k == "const" and e.a is not None:
+            return str(e.a)
+        if depth >= 2:
+            return "_"
+        if e.k == "binop":
+            return "(%s %s %s)" % (shape(e.b, depth + 1), e.a.replace("WithOverflow", ""), shape(e.c, depth + 1))
+        if e.k == "cast":
+            return "(%s as)" % shape(e.b, depth + 1)
+        if e.k == "unop":
+            return "(%s %s)" % (e.a, shape(e.b, depth + 1))
+        return "_"
+
+    def skeleton(key, kind, d):
+        desc = _split(key)[1]
+        if kind == "binop":
+            return "%s|%s|%s" % (desc, shape(d["a"]), shape(d["b"]))
+        return "%s|%s" % (desc, shape(d["v"]))
+
+    # table entries whose site is no longer where it was: candidates for "the code moved"
+    moved = {}
+    for k, ent in table.items():
+        if k not in present and "|" in k:
+            moved.setdefault(module_of(k.split("|", 1)[0]), []).append(ent)
+
+    def moved_entry(key, kind, d):
+        """an entry of the same module whose own site has disappeared and whose description and operand
+        skeleton agree with this site: the computation was moved (helper extracted / inlined / loop
+        rewritten), the argument recorded for it still applies"""
+        cands = moved.get(module_of(key.split("|", 1)[0]), [])
+        sk = skeleton(key, kind, d)
+        for ent in cands:
+            parts = _split(ent["key"])
+            if parts[1] != _split(key)[1]:
+                continue
+            if ent.get("_taken") not in (None, key):
+                continue
+            want = ent.get("skeleton")
+            if want is None:
+                # skeleton of the recorded operands, from their text: keep operators and small constants
+                import re
+                def txt_shape(t):
+                    t = t.strip()
+                    return t
+                want = None
+            # compare on the coarse skeleton computed from the key text when no structured one is stored
+            if _coarse(ent["key"]) == _coarse(key) or sk == ent.get("skeleton"):
+                ent["_taken"] = key
+                return ent
+        return None
+
+    def _split(k):
+        """split a key on `|` outside parentheses (phi alternatives are written with `|` too)"""
+        out, cur, depth = [], "", 0
+        for ch in k:
+            if ch == "(":
+                depth += 1
+            elif ch == ")":
+                depth -= 1
+            if ch == "|" and depth == 0:
+                out.append(cur)
+                cur = ""
+            else:
+                cur += ch
+        out.append(cur)
+        return out
+
+    def _coarse(k):
+        """description plus, per operand, its outermost operator (or `_`) and a trailing constant if any"""
+        import re
+        parts = _split(k)
+        out = [parts[1]]
+        for opnd in parts[2:]:
+            opnd = opnd.strip()
+            m = re.match(r"^\((.*) (Add|Sub|Mul|Div|Rem) (-?\d+)\)$", opnd)
+            if m:
+                out.append("(_ %s %s)" % (m.group(2), m.group(3)))
+                continue
+            m = re.match(r"^\((.*) (Add|Sub|Mul|Div|Rem) (.*)\)$", opnd)
+            if m and opnd.count("(") == opnd.count(")"):
+                out.append("(_ %s _)" % m.group(2))
+                continue
+            m = re.match(r"^\((.*) as (\w+)\)$", opnd)
+            if m:
+                out.append("(_ as %s)" % m.group(2))
+                continue
+            out.append(opnd if re.match(r"^-?\d+$", opnd) else "_")
+        return "|".join(out)
+
+    for key, kind, f, line, d in all_sites:
         n += 1
         site = "%s:%d" % (f.file, line)
         why = auto(f, kind, d)
@@ -191,6 +312,15 @@ def a_sites(led, rid, ctx):
         seen.add(key)
         ent = table.get(key)
         if ent is None:
+            ent = moved_entry(key, kind, d)
+            if ent is not None:
+                seen.add(ent["key"])
+                if ent["class"] == "SAFE":
+                    n_safe += 1
+                    led.ok(rid, ent["key"], site, "SAFE (site moved to %s): %s" % ((f.parent or f.defn).rsplit("::", 1)[-1], ent["reason"]))
+                else:
+                    led.bad(rid, ent["key"], site, "FINDING (%s): %s" % (ent.get("defect", "D10"), ent["reason"]))
+                continue
             led.bad(rid, key, site,
                     "arithmetic site without a safety argument: %s — add a bound argument (SAFE) or a "
                     "failing input (FINDING) to arith_sites.json, or widen the computation"
